@@ -1,9 +1,9 @@
 SPECIFICATION Spec
 CONSTANTS
-  Families = {"wire", "frac", "mix2"}
+  Families = {"wire", "frac", "mix2", "ns"}
   Big = FALSE
   Faithful = TRUE
-INVARIANTS TypeOK CarriesSame RefIsEncoding ViewDiffLocal DevOnlyWhereViewsDiffer DeviationsConfined DecoderFacts
+INVARIANTS TypeOK CarriesSame RefIsEncoding SlotSound NonScalarAgree ViewDiffLocal DevOnlyWhereViewsDiffer DeviationsConfined DecoderFacts
 CHECK_DEADLOCK FALSE
 ACTION_CONSTRAINT Dump
 VIEW View
